@@ -302,11 +302,33 @@ def check_cache_discipline(prog, rep):
         first = [st for st in stmts_of(bkf) if '_to_cache' in unparse(st) and
                  not isinstance(st, (ast.For, ast.While, ast.If))]
         a_ok = bool(first) and all(cfg.dominators_like_before(st, is_reset) for st in first)
-        # (b) every normal path through _calc_result_full resets
+        # (b) on every normal path through _calc_result_full the cache is emptied and NOT filled
+        # again afterwards (the rebuild for N_cache < N pushes its vectors through _to_cache)
+        fillers = {'_to_cache'}
+        grown = True
+        while grown:
+            grown = False
+            for c2 in ci.mro:
+                for nm, g in c2.methods.items():
+                    if nm not in fillers and any(
+                            isinstance(x, ast.Call) and isinstance(x.func, ast.Attribute) and
+                            unparse(x.func.value) == 'self' and x.func.attr in fillers
+                            for x in ast.walk(g)):
+                        fillers.add(nm)
+                        grown = True
+        fillers.discard('_calc_result_full')
+
+        def fills(nd):
+            st = nd.stmt
+            if st is None or isinstance(st, (ast.If, ast.For, ast.While, ast.Try, ast.With)):
+                return False
+            return any(isinstance(x, ast.Call) and isinstance(x.func, ast.Attribute) and
+                       unparse(x.func.value) == 'self' and x.func.attr in fillers
+                       for x in ast.walk(st))
         cfg2 = CFG(cff)
-        r = cfg2.reachable_from([cfg2.entry], blocked=lambda nd: nd.stmt is not None and
-                                is_reset(nd))
-        b_ok = cfg2.exit not in r
+        sin, _ = cfg2.forward(True, lambda nd, dirty: False if (nd.stmt is not None and is_reset(
+            nd)) else (True if fills(nd) else dirty), lambda a, b: a or b)
+        b_ok = sin.get(cfg2.exit.id, True) is False
         rep.instance('KRYLOV-cache-reset', {'class': ci.name, 'reset in _build_krylov': a_ok,
                                             'reset on every path of _calc_result_full': b_ok})
         if not (a_ok or b_ok):
